@@ -47,6 +47,8 @@ def nontrivial(spec, ds):
 def check_api(case, ctx):
     from .. import mat
     spec = case["spec"]
+    if "axes" not in case:
+        case = dict(case, axes=[case["axis"]] if case.get("axis") not in (None, "all") else ["no", "time", "location"])
     opts = {"clim_type": case["clim_type"]}
     ds = model.DS(spec, opts)
     ctx.label("clim_type=" + case["clim_type"])
